@@ -36,8 +36,8 @@ MUTANTS = [
       "                    if key in group:\n                        pass", 'C05 C03'),
     M('nautilus-cache-not-consumed', N, "            self.points = self.points[n_points:]\n", "", 'C08 C03'),
     M('union-cache-not-consumed', U, "        self.points = self.points[n_points:]\n", "", 'C08 C03'),
-    M('worker-not-reset', N, "        self.reset(rng=rng)\n        self.sample(n_points=n_points, return_points=False)",
-      "        self.sample(n_points=n_points, return_points=False)", 'C08'),
+    M('worker-not-reset', N, "        bound.reset(rng=rng)\n        bound.sample(n_points=n_points, return_points=False)",
+      "        bound.sample(n_points=n_points, return_points=False)", 'C08'),
     M('union-proposals-not-shuffled', U, "            self.rng.shuffle(points)\n", "", 'C08'),
     M('double-modulo-in-one-store', PS, '        for i, dim in enumerate(self.periodic):\n            points_t[:, dim] = (points_t[:, dim] + (-1 if inverse else +1) *\n                                (-self.centers[i] + 0.5)) % 1\n            # The modulo of a tiny negative number rounds to exactly 1.\n            points_t[:, dim] = points_t[:, dim] % 1\n',
       "        sign = -1 if inverse else +1\n"
@@ -175,12 +175,12 @@ MUTANTS = [
     M('class-level-cache', PS, "class PhaseShift():\n", "class PhaseShift():\n    _memo = {}\n",
       'C11'),
     M('scalar-shortcut-in-prior', PR,
-      "        phys_points = np.zeros_like(points)\n",
+      "        phys_points = np.zeros_like(points, dtype=float)\n",
       "        if np.ndim(points) == 1:\n"
       "            return self.unit_to_physical(np.atleast_2d(points))[0] + 0.0\n"
-      "        phys_points = np.zeros_like(points)\n", 'C11'),
-    M('fixed-zero-becomes-free', PR, "        if isinstance(dist, tuple):\n            dist = uniform(",
-      "        dist = dist or (0, 1)\n        if isinstance(dist, tuple):\n            dist = uniform(",
+      "        phys_points = np.zeros_like(points, dtype=float)\n", 'C11'),
+    M('fixed-zero-becomes-free', PR, "        if isinstance(dist, tuple):\n            if len(dist) != 2:",
+      "        dist = dist or (0, 1)\n        if isinstance(dist, tuple):\n            if len(dist) != 2:",
       'C15'),
     M('bulk-deletion-ascending-pops', S, "                        for shell in np.flatnonzero(self.shell_n == 0)[::-1]:\n                            self.bounds.pop(shell)\n                            self.points.pop(shell)\n                            self.log_l.pop(shell)\n                            if self.blobs is not None:\n                                self.blobs.pop(shell)\n                            for key in ['shell_n', 'shell_n_sample',\n                                        'shell_n_eff', 'shell_log_l_min',\n                                        'shell_log_l', 'shell_log_v']:\n                                setattr(self, key, np.delete(\n                                    getattr(self, key), shell))\n", "                        empty = np.flatnonzero(self.shell_n == 0)\n                        for shell in empty:\n                            self.bounds.pop(shell)\n                            self.points.pop(shell)\n                            self.log_l.pop(shell)\n                            if self.blobs is not None:\n                                self.blobs.pop(shell)\n                        for key in ['shell_n', 'shell_n_sample',\n                                    'shell_n_eff', 'shell_log_l_min',\n                                    'shell_log_l', 'shell_log_v']:\n                            setattr(self, key, np.delete(\n                                getattr(self, key), empty))\n", 'C12 C02'),
     # ---------------- vectorised rewrites of the phase shift
@@ -722,12 +722,95 @@ MUTANTS = [
       "    def write", 'C07'),
     M('deterministic-allocation', U, "n_per_bound = self.rng.multinomial(n_sample, p)",
       "n_per_bound = np.rint(n_sample * p).astype(int)", 'C08'),
+    # ---------------- round 5 (bug hunt): regression mutants of the repaired defects D10-D16
+    M('stub-installed-for-vectorized', S,
+      "            elif (i == 0 and isinstance(pool[i], int) and\n                  not self.vectorized):",
+      "            elif i == 0 and isinstance(pool[i], int):", 'C11'),
+    M('stub-called-in-parent-scalar-path', S,
+      "            elif (i == 0 and isinstance(pool[i], int) and\n                  not self.vectorized):",
+      "            elif (i == 0 and isinstance(pool[i], int) and\n                  self.vectorized):", 'C11'),
+    M('range-length-unchecked', PR,
+      "            if len(dist) != 2:\n                raise ValueError(\"If 'dist' is a tuple, it must have two \" +\n"
+      "                                 \"elements, the lower and the upper bound.\")\n", "", 'C15'),
+    M('range-order-unchecked', PR,
+      "            if not dist[0] < dist[1]:\n                raise ValueError(\"The upper bound of the range must be \" +\n"
+      "                                 \"larger than the lower bound.\")\n", "", 'C15'),
+    M('range-checked-after-conversion', PR,
+      "            if len(dist) != 2:\n                raise ValueError(\"If 'dist' is a tuple, it must have two \" +\n"
+      "                                 \"elements, the lower and the upper bound.\")\n"
+      "            if not dist[0] < dist[1]:\n                raise ValueError(\"The upper bound of the range must be \" +\n"
+      "                                 \"larger than the lower bound.\")\n"
+      "            dist = uniform(loc=dist[0], scale=dist[1] - dist[0])\n",
+      "            low, high = dist[0], dist[1]\n"
+      "            dist = uniform(loc=dist[0], scale=dist[1] - dist[0])\n"
+      "            if not low < high:\n                raise ValueError(\"The upper bound of the range must be \" +\n"
+      "                                 \"larger than the lower bound.\")\n", 'C15'),
+    M('physical-points-inherit-dtype', PR, "phys_points = np.zeros_like(points, dtype=float)",
+      "phys_points = np.zeros_like(points)", 'C15'),
+    M('physical-points-copy-of-input', PR, "phys_points = np.zeros_like(points, dtype=float)",
+      "phys_points = np.copy(points)", 'C15'),
+    M('sweep-oserror-not-tolerated', NN, "                except (TypeError, ValueError, OSError):",
+      "                except (TypeError, ValueError):", 'C09 C05'),
+    M('sweep-only-typeerror', NN, "                except (TypeError, ValueError, OSError):",
+      "                except TypeError:", 'C09 C05'),
+    M('resumed-flag-not-a-bool', S,
+      "                self._discard_exploration = bool(self._discard_exploration)\n", "", 'C12'),
+    M('resumed-flag-as-numpy-bool', S,
+      "                self._discard_exploration = bool(self._discard_exploration)\n",
+      "                self._discard_exploration = np.bool_(self._discard_exploration)\n", 'C12'),
+    M('union-block-not-written', U, "        group.attrs['block'] = self.block\n", "", 'C09'),
+    M('union-block-not-read', U,
+      "        if 'block' in group.attrs:\n            bound.block = np.array(group.attrs['block'], dtype=bool)\n        else:\n",
+      "        if False:\n            pass\n        else:\n", 'C09'),
+    M('union-block-never-restored', U,
+      "        if 'block' in group.attrs:\n            bound.block = np.array(group.attrs['block'], dtype=bool)\n"
+      "        else:\n            # Files written by earlier versions do not have this information.\n"
+      "            bound.block = np.array([\n                len(points) < 2 * bound.n_points_min for points in\n"
+      "                bound.points_bounds])\n", "", 'C13 C09'),
+    M('job-works-on-the-caller', N,
+      "        bound = copy.deepcopy(self)\n        bound.reset(rng=rng)\n"
+      "        bound.sample(n_points=n_points, return_points=False)\n        return bound\n",
+      "        self.reset(rng=rng)\n"
+      "        self.sample(n_points=n_points, return_points=False)\n        return self\n", 'C08 C03'),
+    M('job-shallow-copy', N, "        bound = copy.deepcopy(self)\n", "        bound = copy.copy(self)\n", 'C08 C03'),
+    M('job-returns-the-caller', N,
+      "        bound.sample(n_points=n_points, return_points=False)\n        return bound\n",
+      "        bound.sample(n_points=n_points, return_points=False)\n        return self\n", 'C08 C03'),
 ]
 MUTANTS = [m for m in MUTANTS if m['props']]
 
 ALL = 'C01 C02 C03 C05 C06 C07 C08 C09 C10 C11 C12 C13 C14 C15 C16'
 
 BENIGN = [
+    # ---------------- round 5: equivalent forms of the repaired code
+    M('vectorized-test-first', S,
+      "            elif (i == 0 and isinstance(pool[i], int) and\n                  not self.vectorized):",
+      "            elif (not self.vectorized and i == 0 and\n                  isinstance(pool[i], int)):", ALL),
+    M('range-checks-merged', PR,
+      "            if len(dist) != 2:\n                raise ValueError(\"If 'dist' is a tuple, it must have two \" +\n"
+      "                                 \"elements, the lower and the upper bound.\")\n"
+      "            if not dist[0] < dist[1]:\n",
+      "            if len(dist) != 2:\n                raise ValueError('A range has two elements.')\n"
+      "            if dist[0] >= dist[1]:\n", ALL),
+    M('physical-points-float64', PR, "phys_points = np.zeros_like(points, dtype=float)",
+      "phys_points = np.zeros_like(points, dtype=np.float64)", ALL),
+    M('physical-points-zeros-shape', PR, "phys_points = np.zeros_like(points, dtype=float)",
+      "phys_points = np.zeros(points.shape)", ALL),
+    M('physical-points-result-type', PR, "phys_points = np.zeros_like(points, dtype=float)",
+      "phys_points = np.zeros_like(points, dtype=np.result_type(points, np.float64))", ALL),
+    M('sweep-tolerates-everything', NN, "                except (TypeError, ValueError, OSError):",
+      "                except Exception:", ALL),
+    M('resumed-flag-compare', S,
+      "                self._discard_exploration = bool(self._discard_exploration)\n",
+      "                self._discard_exploration = bool(\n                    group.attrs['_discard_exploration'])\n", ALL),
+    M('union-block-read-asarray', U,
+      "            bound.block = np.array(group.attrs['block'], dtype=bool)\n",
+      "            bound.block = np.asarray(group.attrs['block']).astype(bool)\n", ALL),
+    M('job-copy-renamed', N,
+      "        bound = copy.deepcopy(self)\n        bound.reset(rng=rng)\n"
+      "        bound.sample(n_points=n_points, return_points=False)\n        return bound\n",
+      "        worker = copy.deepcopy(self)\n        worker.reset(rng=rng)\n"
+      "        worker.sample(n_points=n_points, return_points=False)\n        return worker\n", ALL),
     M('rename-mask', S, "in_bound", "inside_new", ALL),          # every occurrence (see runner)
     M('append-to-concatenate', S,
       "self.points[shell] = np.append(self.points[shell], points, axis=0)",
